@@ -68,52 +68,60 @@ theorem fragIds_updatedOf_nodup {A : List (Nat × Nat)} {frags : List Frag} (hn 
     exact h2.trans ((List.filter_sublist).map _)
   exact hn.sublist this
 
-/-- a writer's own lists, on the fragments it has read: exactly `moveFrags` -/
+theorem own_removed (A : List (Nat × Nat)) (frags : List Frag) (hn : (fragIds frags).Nodup) {f : Frag} (hf : f ∈ frags) :
+    (removedOf A frags).contains f.id = (hasAddr A f.id && allDeleted (extendDel A f)) := by
+  by_cases hc : (hasAddr A f.id && allDeleted (extendDel A f)) = true
+  · rw [hc]
+    simp only [Bool.and_eq_true] at hc
+    simpa using mem_removedOf.mpr ⟨f, hf, hc.1, hc.2, rfl⟩
+  · have hc' : (hasAddr A f.id && allDeleted (extendDel A f)) = false := by simpa using hc
+    rw [hc']
+    apply Bool.eq_false_iff.mpr
+    intro hm
+    have hm' : f.id ∈ removedOf A frags := by simpa using hm
+    obtain ⟨g, hg, ha, hd, he⟩ := mem_removedOf.mp hm'
+    have := frag_eq_of_id hn hg hf he
+    subst this
+    rw [ha, hd] at hc'
+    cases hc'
+
+theorem own_updated (A : List (Nat × Nat)) (frags : List Frag) (hn : (fragIds frags).Nodup) {f : Frag} (hf : f ∈ frags)
+    (hnr : (removedOf A frags).contains f.id = false) :
+    (updatedOf A frags).find? (fun u => u.id == f.id) = if hasAddr A f.id then some (extendDel A f) else none := by
+  by_cases ha : hasAddr A f.id = true
+  · rw [if_pos ha]
+    have hd : allDeleted (extendDel A f) = false := by
+      cases hd : allDeleted (extendDel A f) with
+      | false => rfl
+      | true =>
+        have : f.id ∈ removedOf A frags := mem_removedOf.mpr ⟨f, hf, ha, hd, rfl⟩
+        have : (removedOf A frags).contains f.id = true := by simpa using this
+        rw [hnr] at this
+        cases this
+    have hmem : extendDel A f ∈ updatedOf A frags := mem_updatedOf.mpr ⟨f, hf, ha, hd, rfl⟩
+    have := find_by_id (fragIds_updatedOf_nodup (A := A) hn) hmem
+    simpa [extendDel_id] using this
+  · rw [if_neg ha]
+    apply find_by_id_none
+    intro hm
+    obtain ⟨u, hu', he⟩ := List.mem_map.mp hm
+    obtain ⟨g, hg, hag, _, rfl⟩ := mem_updatedOf.mp hu'
+    rw [extendDel_id] at he
+    have := frag_eq_of_id hn hg hf he
+    subst this
+    exact ha hag
+
+/-- a writer's own lists describe every fragment it has read like `markFrag` -/
 theorem own_plan (A : List (Nat × Nat)) (frags : List Frag) (hn : (fragIds frags).Nodup) (T : Txn)
     (hr : T.removed = removedOf A frags) (hu : T.updated = updatedOf A frags) :
-    applyFrags T frags = moveFrags A frags := by
-  apply applyFrags_eq_moveFrags
-  · intro f hf
-    rw [hr]
-    by_cases hc : (hasAddr A f.id && allDeleted (extendDel A f)) = true
-    · rw [hc]
-      simp only [Bool.and_eq_true] at hc
-      simpa using mem_removedOf.mpr ⟨f, hf, hc.1, hc.2, rfl⟩
-    · have hc' : (hasAddr A f.id && allDeleted (extendDel A f)) = false := by simpa using hc
-      rw [hc']
-      apply Bool.eq_false_iff.mpr
-      intro hm
-      have hm' : f.id ∈ removedOf A frags := by simpa using hm
-      obtain ⟨g, hg, ha, hd, he⟩ := mem_removedOf.mp hm'
-      have := frag_eq_of_id hn hg hf he
-      subst this
-      rw [ha, hd] at hc'
-      cases hc'
-  · intro f hf hnr
+    ∀ f ∈ frags, applyOne T f = markFrag A f := by
+  intro f hf
+  apply applyOne_eq_markFrag
+  · rw [hr]; exact own_removed A frags hn hf
+  · intro hnr
     rw [hu]
     rw [hr] at hnr
-    by_cases ha : hasAddr A f.id = true
-    · rw [if_pos ha]
-      have hd : allDeleted (extendDel A f) = false := by
-        cases hd : allDeleted (extendDel A f) with
-        | false => rfl
-        | true =>
-          have : f.id ∈ removedOf A frags := mem_removedOf.mpr ⟨f, hf, ha, hd, rfl⟩
-          have : (removedOf A frags).contains f.id = true := by simpa using this
-          rw [hnr] at this
-          cases this
-      have hmem : extendDel A f ∈ updatedOf A frags := mem_updatedOf.mpr ⟨f, hf, ha, hd, rfl⟩
-      have := find_by_id (fragIds_updatedOf_nodup (A := A) hn) hmem
-      simpa [extendDel_id] using this
-    · rw [if_neg ha]
-      apply find_by_id_none
-      intro hm
-      obtain ⟨u, hu', he⟩ := List.mem_map.mp hm
-      obtain ⟨g, hg, hag, _, rfl⟩ := mem_updatedOf.mp hu'
-      rw [extendDel_id] at he
-      have := frag_eq_of_id hn hg hf he
-      subst this
-      exact ha hag
+    exact own_updated A frags hn hf hnr
 
 /-! ### the selected rows -/
 
